@@ -307,6 +307,17 @@ func checkC08(c C08Case) Result {
 				if !unconstrained {
 					exp = expectationFor(valCons)
 				}
+			case *hclsyntax.TemplateWrapExpr, *hclsyntax.TemplateExpr:
+				// inside an interpolation a string is expected, whatever the attribute's own type is
+				// (only judged where the value is an any-expression: templates are admitted there)
+				if part := interpolationAtCursor(e, off); part != nil && !unconstrained && valCons.K == "any" {
+					switch part.(type) {
+					case *hclsyntax.ScopeTraversalExpr, *hclsyntax.ExprSyntaxError:
+						exp = expectedAt{known: true, types: []cty.Type{cty.String}}
+						inCallArg = true // (no round trip: the inserted text lands inside a string)
+						r.Class("cursor-in-template-interpolation")
+					}
+				}
 			case *hclsyntax.FunctionCallExpr:
 				// inside the parentheses of a call of a known function the parameter of the
 				// argument slot holding the cursor decides what fits
@@ -570,4 +581,28 @@ func afterDanglingLine(text string, at int) bool {
 		return false
 	}
 	return true
+}
+
+// interpolationAtCursor returns the interpolated part of a template that holds the cursor.
+func interpolationAtCursor(e hclsyntax.Expression, off int) hclsyntax.Expression {
+	in := func(x hclsyntax.Expression) bool {
+		rg := x.Range()
+		return rg.Start.Byte <= off && off <= rg.End.Byte
+	}
+	switch t := e.(type) {
+	case *hclsyntax.TemplateWrapExpr:
+		if in(t.Wrapped) {
+			return t.Wrapped
+		}
+	case *hclsyntax.TemplateExpr:
+		for _, p := range t.Parts {
+			if _, lit := p.(*hclsyntax.LiteralValueExpr); lit {
+				continue
+			}
+			if in(p) {
+				return p
+			}
+		}
+	}
+	return nil
 }
